@@ -311,6 +311,8 @@ package logqlengine
 //@   loop 0 modifies *
 
 //@ func newAggregatedLabels
+//@   modifies nothing
+//@   trusted_frame
 //@   ensures[fields]  same(ret0.by, by) && same(ret0.without, without)
 //@   ensures[canonical-order] forall(0, len(ret0.entries)-1, func(j int) bool { return ret0.entries[j].name <= ret0.entries[j+1].name })
 
